@@ -1,6 +1,7 @@
 SPECIFICATION Spec
 CONSTANTS
   NoFinally = TRUE
+  CloseUnwinds = TRUE
   AllowReentry = FALSE
   MaxLen = 3
   MaxOps = 4
